@@ -246,4 +246,77 @@ Proof.
 Qed.
 
 
+(* parsing an input of the authority class yields records related by corrS - or the model reports
+   Overflow (serialization longer than u32::MAX), or both sides fail *)
+Theorem authority_class_corrS input : usv_list input -> in_class_authority input = true ->
+  host_agree hpo hd shp shs (class_host_text input) -> host_extra (class_host_text input) ->
+  match spec_basic_url_parse shp input None with
+  | BDone su => parse_url dbg hp hpo hd ovr None input = PErr Overflow
+                \/ exists u, parse_url dbg hp hpo hd ovr None input = POk u /\ corrS dbg shs u su
+  | BFailure _ => exists e, parse_url dbg hp hpo hd ovr None input = PErr e
+  | BOutOfFuel => False
+  end.
+Proof.
+  intros Hu Hc HA HX. unfold in_class_authority, class_host_text in *.
+  destruct (spec_scheme (spec_clean input)) as [[sch rest]|] eqn:Es; [|discriminate].
+  destruct rest as [|c1 [|c2 T]]; try discriminate.
+  apply andb_true_iff in Hc. destruct Hc as [Hc Hok]. apply andb_true_iff in Hc. destruct Hc as [Hc H2].
+  apply andb_true_iff in Hc. destruct Hc as [H0 H1]. apply N.eqb_eq in H1, H2. subst c1 c2.
+  assert (is_special_scheme sch = false) as Hnsp by (destruct (is_special_scheme sch); [discriminate | reflexivity]).
+  pose proof (not_special_type sch Hnsp) as Hns.
+  unfold auth_class_ok in Hok. apply andb_true_iff in Hok. destruct Hok as [Hok Hc3].
+  apply andb_true_iff in Hok. destruct Hok as [Hc1 Hc2]. apply negb_true_iff in Hc1, Hc2.
+  pose proof (spec_authority shp input sch T Es Hnsp) as HS.
+  rewrite spec_clean_is_ntnl_trim in Es.
+  destruct (spec_scheme_model _ _ _ Es) as (rem & Hps & Hrem).
+  destruct (parse_scheme_suffix _ _ _ _ Hps) as [pre0 Hpre].
+  assert (usv_list rem) as Hur.
+  { pose proof (usv_trim input Hu) as Ht. rewrite Hpre in Ht. apply usv_app in Ht. tauto. }
+  destruct (split_ss rem T Hur Hrem) as (l & Hss & Hl & Hul).
+  pose proof (parse_scheme_out _ _ _ Hps) as Hcan.
+  assert (match auth_path_text (ntnl l) with c :: r => if c =? 47 then spath_ok r [] [] = true else True | [] => True end) as Hc3'.
+  { rewrite Hl. destruct (auth_path_text T) as [|c r]; [exact I|]. destruct (c =? 47); [exact Hc3 | exact I]. }
+  rewrite <- Hl in Hc1, Hc2, HA, HX.
+  pose proof (model_auth_corr sch l Hul Hcan Hns Hc1 Hc2 Hc3' HA HX) as HM. cbv zeta in HM.
+  rewrite Hl in HM.
+  assert (parse_url dbg hp hpo hd ovr None input
+          = (' se <~ to_u32 (nlen sch) ;; after_double_slash dbg hp hpo hd ovr CUrlParser STNotSpecial se (sch ++ [58]) l)) as Epu.
+  { unfold parse_url. rewrite Hps. unfold parse_with_scheme. rewrite Hns. unfold parse_non_special. rewrite Hss. reflexivity. }
+  rewrite Epu.
+  destruct (sauth shp sch T) as [su|].
+  - rewrite HS. destruct HM as (u & HO & R).
+    assert (oob True
+                (' se <~ to_u32 (nlen sch) ;; after_double_slash dbg hp hpo hd ovr CUrlParser STNotSpecial se (sch ++ [58]) l) u) as HO'.
+    { eapply oob_bind; [apply oob_u32; intros _; exact I|]. eapply oob_weaken; [|exact HO]. intros _. exact I. }
+    destruct HO' as [[E _]|E]; [left; exact E | right; exists u; split; assumption].
+  - destruct HS as [uf ->].
+    destruct (to_u32 (nlen sch)) as [se| |] eqn:Eu; cbn [pbind].
+    + apply to_u32_inv in Eu. destruct Eu as [-> _]. exact HM.
+    + exists e. reflexivity.
+    + unfold to_u32 in Eu. destruct (nlen sch <=? U32_MAX_P); discriminate Eu.
+Qed.
+
+(* C07_statement restricted to this class of start URLs and to the six setters, histories included *)
+Theorem six_from_authority_class input u ops : usv_list input -> in_class_authority input = true ->
+  host_agree hpo hd shp shs (class_host_text input) -> host_extra (class_host_text input) ->
+  parse_url dbg hp hpo hd ovr None input = POk u ->
+  six_ops ops -> outside_known dbg hp hpo hd u ops ->
+  exists su, spec_basic_url_parse shp input None = BDone su
+    /\ model_api dbg u = Some (spec_api_list shs su)
+    /\ forall n, exists u' su',
+         model_run dbg hp hpo hd u (firstn n ops) = Some u'
+         /\ spec_run shp su (firstn n ops) = Some su'
+         /\ model_api dbg u' = Some (spec_api_list shs su').
+Proof.
+  intros Hu Hc HA HX Ep Hf Ho.
+  pose proof (authority_class_corrS input Hu Hc HA HX) as K.
+  destruct (spec_basic_url_parse shp input None) as [su|uf|]; [| |contradiction].
+  - destruct K as [E|(u0 & E & C)]; [rewrite Ep in E; discriminate E|].
+    rewrite Ep in E. inversion E; subst u0. exists su. split; [reflexivity|].
+    split; [exact (corr_api dbg shs u su (proj1 C))|]. intros n.
+    destruct (six_histories dbg hp hpo hd shp shs ops u su C Hf Ho n) as (u' & su' & A & B & _ & D).
+    exists u', su'. auto.
+  - destruct K as [e E]. rewrite Ep in E. discriminate E.
+Qed.
+
 End AuthParse.
